@@ -1,5 +1,5 @@
 (* C13 — tree invariants: search order, exact aggregates, heap order, canonical shape. *)
-From GK Require Import Base Order Treap TreapSpec Store StoreSpec StoreRefine Corollaries Codec CodecProofs Disk DiskProofs.
+From GK Require Import Base Order Treap TreapSpec Store StoreSpec StoreRefine Corollaries Codec CodecProofs Disk DiskProofs HeapHistory.
 
 (* at all times: every collection of every reachable state (any history whatsoever in which
    names keep their comparator) is a search tree under its comparator in which every node
@@ -54,3 +54,21 @@ Theorem c13_persisted_invariants : forall cmpid f size cs f' size' cs',
   names_b (tmap cs) = true -> Forall (coll_conf cmpid) cs -> conforms_v4 cmpid f' = true.
 Proof. exact DiskProofs.flush_conforms_nodup. Qed.
 Print Assumptions c13_persisted_invariants.
+
+(* over whole histories: as long as the history never overwrites a key with a lower priority than it had
+   (no_lower_overwrite, evaluated against the evolving state), every tree of every reachable state -- current and
+   flushed -- has no child outranking its parent *)
+Theorem c13_heap_history : forall file ops, ops_ok [] ops -> no_lower_overwrite (init file) ops ->
+  heap_store (exec (init file) ops).
+Proof. exact HeapHistory.c13_heap_history. Qed.
+Print Assumptions c13_heap_history.
+
+(* and with distinct priorities the shape and every depth are independent of the history that led there *)
+Theorem c13_history_canonical : forall f1 f2 ops1 ops2 n c1 c2,
+  ops_ok [] ops1 -> ops_ok [] ops2 ->
+  no_lower_overwrite (init f1) ops1 -> no_lower_overwrite (init f2) ops2 ->
+  cget (s_cur (exec (init f1) ops1)) n = Some c1 -> cget (s_cur (exec (init f2) ops2)) n = Some c2 ->
+  c_cmp c1 = c_cmp c2 -> elems (c_tree c1) = elems (c_tree c2) -> NoDup (map iprio (elems (c_tree c1))) ->
+  shape_of (c_tree c1) = shape_of (c_tree c2) /\ forall d, depths (c_tree c1) d = depths (c_tree c2) d.
+Proof. exact HeapHistory.c13_history_canonical. Qed.
+Print Assumptions c13_history_canonical.
